@@ -188,13 +188,13 @@ def validate(tier, seed):
     from pgradd.ThermoChem import ThermochemIncomplete
     rnd = random.Random(seed)
     bad, n = [], 0
-    for _ in range(40):
+    for _ in range(120):
         units = dict(rnd.choice(UNIT_SETS))
-        tu = rnd.choice(T_UNITS)
+        tu = rnd.choice(T_UNITS + ['MK', 'uK'])
         if tu:
             units['temperature'] = tu
-        H = rnd.choice([None, 0.0, -12.3456789, 45.1])
-        S = rnd.choice([None, 0.0, 3.14159265, -2.5])
+        H = rnd.choice([None, 0.0, -12.3456789, 45.1, 1.2345678e-9, -3.3e+7])       # incl. magnitudes %g writes with an exponent
+        S = rnd.choice([None, 0.0, 3.14159265, -2.5, 7.654321e-8])
         ncp = rnd.randint(0, 3)
         cp = dict((CP_T[i], rnd.choice([0.0, 1.2345678, 7.5])) for i in range(ncp))
         rng = rnd.choice([None, (250.0, 1500.0)])
